@@ -169,6 +169,7 @@ def _worker(w, nw, drivers, conn, known=()):
                                 elif len(st["bad"]) < MAX_KEEP_PER_DRIVER:
                                     od["unit"] = _jsonable(unit)
                                     od["unit_pos"] = upos
+                                    od["shard"] = [w, nw, idx]
                                     st["bad"].append((idx, jc, od))
                                 else:
                                     st["overflow"] = st.get("overflow", 0) + 1
@@ -297,6 +298,8 @@ def write_replay(prop, driver_id, case, out, tier, seed, subdir="replays"):
         # between the cases of one unit (caches on a shared object) when the case alone passes on fresh objects
         body["unit"] = out["unit"]
         body["unit_pos"] = out["unit_pos"]
+        # worker index, worker count and unit index: lets a replay reproduce state carried between UNITS of one worker
+        body["shard"] = out.get("shard")
     blob = json.dumps(body, sort_keys=True, indent=1)
     sha = hashlib.sha256(json.dumps([driver_id, case], sort_keys=True).encode()).hexdigest()[:12]
     d = os.path.join(VERIF, subdir)
@@ -311,7 +314,7 @@ def fresh_replay(path):
     """determinism gate: run one replay file in a fresh interpreter; return (exitcode, observation)"""
     env = dict(os.environ, PYTHONHASHSEED="0")
     p = subprocess.run([sys.executable, "-m", "vf.run", "--replay", path, "--json"], cwd=VERIF, env=env,
-                       capture_output=True, text=True, timeout=UNIT_TIMEOUT_S + 60)
+                       capture_output=True, text=True, timeout=4 * 3600)
     obs = None
     for line in p.stdout.splitlines():
         if line.startswith("OBS "):
